@@ -63,7 +63,17 @@ def run_case(c, ci):
                 return pyc.Null
         return None
 
-    t = rw.make_tracer("RW%d" % ci, c["events"], guards=c["guards"], recorder=recorder)
+    extra_attrs = None
+    if c.get("exempt_events"):
+        # C10: a second, guard-exempt handler on some events: it keeps receiving them from guarded-off loop bodies; the ordinary
+        # recorder above must not (its leak check is unchanged)
+        def exempt_handler(self, ret, node, frame, evt, local_guard, **kw):
+            state["exempt"] = state.get("exempt", 0) + 1
+            return None
+        exempt_handler.__name__ = "h_exempt"
+        evs = tuple(pyc.TraceEvent[e] if e in pyc.TraceEvent.__members__ else pyc.TraceEvent(e) for e in c["exempt_events"])
+        extra_attrs = {"h_exempt": pyc.register_handler(evs, exempt_from_guards=True)(exempt_handler)}
+    t = rw.make_tracer("RW%d" % ci, c["events"], guards=c["guards"], recorder=recorder, extra_attrs=extra_attrs)
     try:
         with t.tracing_enabled():
             try:
@@ -87,6 +97,7 @@ def run_case(c, ci):
             if c.get("silence"):
                 res["leaks"] = state["leaks"][:10]
                 res["silenced"] = len(state["silenced"])
+                res["exempt_deliveries"] = state.get("exempt", 0)
     finally:
         type(t).clear_instance()
         pyc.BaseTracer.guards.clear()
